@@ -508,6 +508,8 @@ def use_exprs(rng, res, name):
             continue
         out.append((name, a))
     for other in sorted(res.loaded):
+        if w.mods[other].get("me"):
+            continue        # the package attribute is set only after the module has finished importing
         if len(other) > len(m) and other[:len(m)] == m:
             rest = other[len(m):]
             attrs = [a for a in w.mods[other]["attrs"] if not a.startswith("_")]
@@ -553,7 +555,7 @@ def gen_module(rng, place, cfg=None):
         infos.insert(rng.randrange(len(infos) + 1), me)
     future = None
     if rng.random() < 0.15:
-        future = ("F", ("__future__",), 0, [(rng.choice(FUTURE), None)])
+        future = ("F", ("__future__",), 0, [(f, None) for f in (FUTURE if rng.random() < 0.3 else [rng.choice(FUTURE)])])
     try:
         res = Resolver(place).run(infos)
     except Invalid:
